@@ -278,6 +278,13 @@ func QuickHistories() []History {
 		{Name: "q09-mixed", Ops: []Op{{Kind: OpLAdd, L: smb("s", "007")}, reg(idA, 1), {Kind: OpLAdd, L: ext("e", "1e3")}, child(idA, idC, 2), {Kind: OpLRemove, Name: "s"}, {Kind: OpExit, ID: idA}}},
 		{Name: "q10-http", Ops: []Op{{Kind: OpLAdd, L: httpL("h1", nil)}, reg(idA, 1), {Kind: OpLAdd, L: httpL("h2", map[string]string{"Headers": "", "Uris": "", "Proxy Enabled": "false", "HostHeader": "", "PortConn": ""})}}},
 		{Name: "q14-http-edit", Ops: []Op{{Kind: OpLAdd, L: httpL("h1", nil)}, {Kind: OpLEdit, L: httpL("h1", map[string]string{"UserAgent": "UA/2", "Headers": "X-C: 3", "Uris": "/c", "Proxy Host": "proxy2"})}, reg(idA, 1)}},
+		// an edit that changes one setting only, one history per editable setting (each is saved on its own)
+		{Name: "q23-http-edit-uris-only", Ops: []Op{{Kind: OpLAdd, L: httpL("h1", nil)}, {Kind: OpLEdit, L: httpL("h1", map[string]string{"Uris": "/c, /b"})}, reg(idA, 1)}},
+		{Name: "q24-http-edit-useragent-only", Ops: []Op{{Kind: OpLAdd, L: httpL("h1", nil)}, {Kind: OpLEdit, L: httpL("h1", map[string]string{"UserAgent": "UA/2"})}, reg(idA, 1)}},
+		{Name: "q25-http-edit-headers-only", Ops: []Op{{Kind: OpLAdd, L: httpL("h1", nil)}, {Kind: OpLEdit, L: httpL("h1", map[string]string{"Headers": "X-C: 3"})}, reg(idA, 1)}},
+		{Name: "q26-http-edit-proxy-only", Ops: []Op{{Kind: OpLAdd, L: httpL("h1", nil)}, {Kind: OpLEdit, L: httpL("h1", map[string]string{"Proxy Host": "proxy2", "Proxy Port": "8080"})}, reg(idA, 1)}},
+		// two edits in a row, the second back to the first configuration
+		{Name: "q27-http-edit-and-back", Ops: []Op{{Kind: OpLAdd, L: httpL("h1", nil)}, {Kind: OpLEdit, L: httpL("h1", map[string]string{"Uris": "/c"})}, {Kind: OpLEdit, L: httpL("h1", nil)}, reg(idA, 1)}},
 		{Name: "q11-restart", Ops: []Op{reg(idA, 1), child(idA, idC, 2), {Kind: OpLAdd, L: smb("smb1", "pipe1")}, {Kind: OpRestart}, {Kind: OpSleep, ID: idA, Delay: 11, Jitter: 12}, {Kind: OpPDisconnect, ID: idA, Child: idC}}},
 		{Name: "q13-disconnect-restart-reconnect", Ops: []Op{reg(idA, 1), child(idA, idC, 2), {Kind: OpPDisconnect, ID: idA, Child: idC}, {Kind: OpRestart}, child(idA, idC, 2), {Kind: OpPoll, ID: idA}}},
 		{Name: "q12-restart-rereg", Ops: []Op{reg(idA, 1), reg(idB, 2), {Kind: OpMarkDead, ID: idA}, {Kind: OpRestart}, reg(idA, 3), {Kind: OpLAdd, L: ext("ext1", "ep1")}}},
